@@ -13,6 +13,9 @@ func I(t string, r ...string) Op { return Op{Kind: OpInsert, Table: t, Row: r} }
 func U(t string, key string, r ...string) Op {
 	return Op{Kind: OpUpdate, Table: t, Vals: []string{key}, Row: r}
 }
+func U2(t string, key []string, r ...string) Op {
+	return Op{Kind: OpUpdate, Table: t, Vals: key, Row: r}
+}
 func D(t string, key string) Op { return Op{Kind: OpDelete, Table: t, Vals: []string{key}} }
 func A() Op                     { return Op{Kind: OpAbort} }
 func AC() Op                    { return Op{Kind: OpAbortGoOn} }
@@ -27,6 +30,9 @@ var pc = map[string][]Row{"p": {{"1", "x"}, {"2", "x"}}, "c": {{"1", "1"}}}
 // h 1 is referenced by l1 (cascade) and by l2 (cascade, through l2's key), l2 1 by g (block)
 var hl = map[string][]Row{"t": {{"1", "1", "1"}}, "h": {{"1", "x"}, {"2", "x"}}, "l1": {{"a", "1"}, {"b", "2"}},
 	"l2": {{"1", "e"}}, "g": {{"g1", "1"}}}
+
+// hd (1,1) and (2,2) are referenced by ln 10 and ln 20; ln has the second key (d2,e)
+var hdln = map[string][]Row{"hd": {{"1", "1"}, {"2", "2"}}, "ln": {{"10", "1", "1", "5"}, {"20", "2", "2", "5"}}}
 
 // AllScenarios returns every scenario; checks pick theirs by group.
 func AllScenarios() []*Scenario {
@@ -89,6 +95,15 @@ func AllScenarios() []*Scenario {
 		{Name: "update-unique-vs-insert", Group: "con", Init: t3, Clients: [][]Tran{
 			{upd(U("t", "1", "1", "1", "8"))},
 			{upd(I("t", "7", "7", "8"))}}},
+		// changing hd (1,1) to (1,2) is no duplicate in hd; it cascades ln 10 to
+		// (10,1,2,5) whose second key (2,5) is taken by ln 20 - unless ln 20 was
+		// deleted by a transaction that committed before this one started
+		{Name: "cascade-collides-on-second-key", Group: "con", Init: hdln, Clients: [][]Tran{
+			{upd(U2("hd", []string{"1", "1"}, "1", "2"))},
+			{upd(D("ln", "20"))}}},
+		{Name: "cascade-vs-insert-on-second-key", Group: "con", Init: map[string][]Row{"hd": hdln["hd"], "ln": {{"10", "1", "1", "5"}}}, Clients: [][]Tran{
+			{upd(U2("hd", []string{"1", "1"}, "1", "2"))},
+			{upd(I("ln", "30", "2", "2", "5"))}}},
 		{Name: "three-way-dup-key", Heavy: true, Group: "con", Clients: [][]Tran{
 			{upd(I("t", "3", "1", "1"))},
 			{upd(I("t", "3", "2", "2"))},
